@@ -131,6 +131,14 @@ func (p *Policy) PreemptIn(fn *ssa.Function) bool {
 
 // ExternMethod returns an engine implementation for a method on an opaque value.
 func (p *Policy) ExternMethod(e *Extern, method string) IntrinsicFn {
+	if strings.HasSuffix(e.Name, "datamodel.Null") {
+		switch method {
+		case "IsNull":
+			return func(ex *Exec, fr *frame, args []Value) Value { return ex.ts.True() }
+		case "IsAbsent":
+			return func(ex *Exec, fr *frame, args []Value) Value { return ex.ts.False() }
+		}
+	}
 	switch d := e.Data.(type) {
 	case *ctxObj:
 		return ctxMethod(d, method)
